@@ -130,6 +130,7 @@ class Sandbox:
         survey_mod.Survey.to_xml = s["to_xml"]
         xls2xform.logger.handlers = s["handlers"]
         xls2xform.logger.propagate = s["propagate"]
+        self.remove_fault()
         shutil.rmtree(self.base, ignore_errors=True)
         return False
 
@@ -147,6 +148,51 @@ class Sandbox:
         raw = bytes.fromhex(outcome["stderr_hex"]) if "stderr_hex" in outcome else data.encode("utf-8", "surrogatepass")
         (ctl / "stderr").write_bytes(raw)
         self.short_timeout = kind == "sleep"
+
+    def install_fault(self, flavour):
+        """Crash-point injection at the call `open(path, mode="w")` of print_xform_to_file (pyxform/survey.py): a name
+        `open` in the module's globals shadows the builtin for the duration of one run.  Only opens for writing inside
+        the private TMPDIR are affected.  Flavours: `open` = the file is created/truncated, then ENOSPC; `write` = half
+        of the text reaches the file, then ENOSPC; `vanish` = the temp file disappears and the open fails with ENOENT."""
+        import builtins
+        import errno
+
+        survey_mod = self.mods[1]
+        tmp = str(self.base / "tmp")
+
+        class Half:
+            def __init__(self, fh):
+                self.fh = fh
+
+            def __enter__(self):
+                return self
+
+            def __exit__(self, *a):
+                self.fh.close()
+                return False
+
+            def write(self, text):
+                self.fh.write(text[: len(text) // 2])
+                self.fh.flush()
+                raise OSError(errno.ENOSPC, os.strerror(errno.ENOSPC))
+
+        def faulty_open(file, mode="r", *a, **kw):
+            if "w" in mode and str(file).startswith(tmp):
+                if flavour == "open":
+                    builtins.open(file, mode, *a, **kw).close()
+                    raise OSError(errno.ENOSPC, os.strerror(errno.ENOSPC))
+                if flavour == "vanish":
+                    os.unlink(file)
+                    raise OSError(errno.ENOENT, os.strerror(errno.ENOENT))
+                return Half(builtins.open(file, mode, *a, **kw))
+            return builtins.open(file, mode, *a, **kw)
+
+        survey_mod.open = faulty_open
+
+    def remove_fault(self):
+        survey_mod = self.mods[1]
+        if "open" in vars(survey_mod):
+            del survey_mod.open
 
     def clean_dirs(self):
         for d in ("tmp", "in", "out"):
@@ -193,6 +239,8 @@ class Sandbox:
         if pre and mode["kind"] == "cli":
             out_path.write_text("STALE")
         obs = {"raised": None, "msg": None, "json": None, "ret": None}
+        if form.get("fault"):
+            self.install_fault(form["fault"])
         try:
             if mode["kind"] == "lib":
                 import copy
@@ -215,14 +263,16 @@ class Sandbox:
                 sys.argv = argv
                 main_cli()
         except Exception as e:  # noqa: BLE001  (observed, classified by the caller)
-            obs["raised"] = type(e).__name__
+            obs["raised"] = _cls(type(e))
             obs["msg"] = str(e)
         except SystemExit as e:
             raise vcore.Infra(f"argparse rejected the harness's own command line: {e}") from e
+        finally:
+            self.remove_fault()
         logs = []
         for rec in self.capture.records:
             msg = rec.getMessage()
-            exc = rec.exc_info[0].__name__ if rec.exc_info and rec.exc_info[0] else None
+            exc = _cls(rec.exc_info[0]) if rec.exc_info and rec.exc_info[0] else None
             if mode.get("json") and rec.levelname == "INFO" and msg.startswith("{"):
                 try:
                     obs["json"] = json.loads(msg)
@@ -248,6 +298,11 @@ class Sandbox:
         obs["out_dir_abs"] = str(self.base / out_dir)
         obs["tmp_abs"] = str(self.base / "tmp")
         return obs
+
+
+def _cls(t) -> str:
+    """exception class as the handlers of main_cli see it: every OSError subclass is an OSError"""
+    return "OSError" if issubclass(t, OSError) else t.__name__
 
 
 class _Capture(logging.Handler):
